@@ -22,7 +22,10 @@ SMALL_CALLS = ("leading_zeros", "trailing_zeros", "count_ones")
 MIN_CALLS = ("core::cmp::min", "core::cmp::Ord::min", "<usize as core::cmp::Ord>::min", "core::cmp::impls::<impl core::cmp::Ord for usize>::min")
 # user traits whose integer results are *data supplied by the caller* (ranges); other user-trait
 # integers (Buf::remaining ...) are behaviour of an implementation and are the subject of rule C6
-ARG_LIKE_UCALLS = ("core::ops::RangeBounds::start_bound", "core::ops::RangeBounds::end_bound")
+# results of caller-supplied trait impls that may legitimately be any usize: the bounds of a range argument, and what a user's Buf / BufMut
+# reports as remaining (an endless source reports usize::MAX; Chain and Limit saturate for exactly that reason)
+ARG_LIKE_UCALLS = ("core::ops::RangeBounds::start_bound", "core::ops::RangeBounds::end_bound",
+                   "buf::buf_impl::Buf::remaining", "buf::buf_mut::BufMut::remaining_mut")
 USER_SETTABLE_FIELDS = ("limit",)
 
 
